@@ -16,8 +16,10 @@ OUTSIDE = ('rk2_heun / rk3ssp: convex combinations of Euler steps (C05) under th
 ASSUMPTIONS = ['stencil locality: a cell update only involves its two neighbours']
 EXPLANATION = ('Positivity after the real step is asserted for all data. What the solver cannot prove within the time limit is reported inconclusive and '
                'remains a bounded search for violations.')
-LEVEL_TEXT = ('Bounded SMT verification where the non-linear queries close (shallow-water depth), bounded solver-based search for violations elsewhere '
-              '(Euler density/pressure are hard NRA: see the evidence for what was proved in this run).')
+LEVEL_TEXT = ('Bounded SMT verification where the non-linear queries close: shallow-water depth (Rusanov directly, HLL through the solver-checked '
+              'lemma chain A-B-C) and HLLE density through the same chain UNDER THE STATED ASSUMPTION that dt also respects the Roe-average wave '
+              'speeds (not implied by the cell CFL condition, DESIGN.md A.8); bounded solver-based search for violations elsewhere (HLLC density and '
+              'every pressure clause are hard NRA: see the evidence for what was proved in this run).')
 
 
 def configs(tier):
